@@ -280,6 +280,14 @@ func genIdentity(g *vkit.Rand) *user.DefaultInfo {
 	if g.Chance(0.015) {
 		u.Name = "" // an authenticator that vouches for a user without a name
 	}
+	// quantifier audit ("names/groups/extra keys with arbitrary bytes"): values that begin or end with a blank were not
+	// generated because no field value can carry them - that is a reason to refuse them, not to leave them out
+	if g.Chance(0.01) {
+		u.Name = g.Pick([]string{" alice", "alice ", "\tbob", "system:masters "})
+	}
+	if g.Chance(0.01) {
+		u.Groups = append(u.Groups, g.Pick([]string{"system:masters ", " dev", "ops\t"}))
+	}
 	if g.Chance(0.03) {
 		u.Name = g.Pick(saBoundary)
 	}
@@ -605,7 +613,35 @@ func headersOfH2(s bed.Seen) []bed.RawHeader {
 	return out
 }
 
+// edgeBlank: the string starts or ends with a blank; HTTP strips optional whitespace around a field value, so the
+// upstream would be told a different string.
+func edgeBlank(s string) bool {
+	return s != "" && (s[0] == ' ' || s[0] == '\t' || s[len(s)-1] == ' ' || s[len(s)-1] == '\t')
+}
+
+func hasEdgeBlank(id *Identity) bool {
+	if edgeBlank(id.Name) {
+		return true
+	}
+	for _, g := range id.Groups {
+		if edgeBlank(g) {
+			return true
+		}
+	}
+	for _, vs := range id.Extra {
+		for _, v := range vs {
+			if edgeBlank(v) {
+				return true
+			}
+		}
+	}
+	return false
+}
+
 func sendable(id *Identity) bool {
+	if hasEdgeBlank(id) {
+		return false
+	}
 	ok := func(s string) bool {
 		for i := 0; i < len(s); i++ {
 			if (s[i] < 0x20 && s[i] != '\t') || s[i] == 0x7f {
@@ -652,7 +688,6 @@ func TestCheck(t *testing.T) {
 			"Sent byte-exact over a raw socket through the real handler chain; decided on the header lines a raw stub upstream received (every copy, when a request arrives more than once). " +
 			"Non-trivial = the request carries any identity-bearing client header beyond one well-formed bearer token, or the identity needs escaping; distinct = hash of the wire request head and script.")
 		r.Assume("the authenticator and authorizer are the harness' scripted ones; what the authenticator returned is recorded at that boundary and is 'the identity the gateway authenticated'")
-		r.Assume("identity strings with leading/trailing blanks are not generated: no HTTP field value can carry them")
 		r.Assume("an allowed impersonation that is forwarded under the authenticated identity is counted (allowed_forwarded_as_self), not judged: the statement permits the authenticated identity unconditionally")
 		r.Assume("after a credential rotation every credential the cluster object was ever configured with counts as 'the gateway's own' (which one is in use is hot-reload convergence, C11); stale use is counted")
 
@@ -744,6 +779,7 @@ func TestCheck(t *testing.T) {
 			r.Require(r.Counter("forwarded_via_concurrent") >= int64(nb*batchSize/4) && r.Counter("batches_with_racing_config_event") >= int64(nb/10), "the concurrent phase was too thin")
 			r.Require(r.Counter("not_forwarded_authenticator_error") >= int64(n/200), "the failing-authenticator path was not exercised")
 			r.Require(r.Counter("empty_name_identity_cases") >= int64(n/300) && r.Counter("many_groups_identity_forwarded") >= int64(n/300), "boundary identities were not exercised")
+			r.Require(r.Counter("edge_blank_identity_cases") >= int64(n/200), "identities with blank-edged values were not exercised")
 			r.Require(r.Counter("sa_boundary_impersonations_forwarded") >= int64(n/300), "service-account boundary names were never impersonated successfully (model and filter may disagree on validity)")
 		}
 	})
@@ -890,6 +926,9 @@ func prepCase(r *vkit.R, tb *testbed, i int, g *vkit.Rand, together bool) (*Case
 	}
 	if c.Intended != nil && c.Intended.Name == "" {
 		r.Count("empty_name_identity_cases", 1)
+	}
+	if c.Intended != nil && hasEdgeBlank(c.Intended) {
+		r.Count("edge_blank_identity_cases", 1)
 	}
 	return c, sc, true
 }
@@ -1242,7 +1281,25 @@ func judge(r *vkit.R, tb *testbed, c *Case, sc *script, resp *bed.RawResponse) {
 					best, bestDiff = cd.what, d
 				}
 			}
+			if bestDiff != "" && hasEdgeBlank(authn) {
+				// told the authenticated identity with its edge blanks stripped?
+				ts := Identity{Name: strings.Trim(authn.Name, " \t"), Extra: map[string][]string{}}
+				for _, g := range authn.Groups {
+					ts.Groups = append(ts.Groups, strings.Trim(g, " \t"))
+				}
+				for k, vs := range authn.Extra {
+					for _, v := range vs {
+						ts.Extra[k] = append(ts.Extra[k], strings.Trim(v, " \t"))
+					}
+				}
+				if d := got.Diff(Normalize(ts)); d == "" {
+					best = "self"
+				}
+			}
 			switch {
+			case bestDiff != "" && best == "self" && hasEdgeBlank(authn):
+				r.Violation(fmt.Sprintf("C02/identity/edge-blank-stripped/%s/%s", bestDiff, c.Path),
+					fmt.Sprintf("the authenticated identity (user %q groups %q) has a value that begins or ends with a blank, which HTTP strips from a field value; instead of refusing, the gateway let the upstream be told user %q groups %q", authn.Name, authn.Groups, got.Name, got.Groups), wit(nil))
 			case bestDiff != "" && best == "self" && !sendable(authn):
 				r.Violation(fmt.Sprintf("C02/identity/control-bytes-altered/%s/%s", bestDiff, cfeat),
 					fmt.Sprintf("the authenticated identity (user %q groups %q) contains bytes no HTTP field value can carry; instead of refusing, the gateway told the upstream user %q groups %q", authn.Name, authn.Groups, got.Name, got.Groups), wit(nil))
